@@ -22,8 +22,9 @@ def showLtrb (r : LTRB Float32) : String :=
 def handleBBox (op : String) (args : List String) : String :=
   match op, args with
   | "gbox", children =>
-    -- child := `l,t,r,b` or `l,t,r,b@sx,ky,kx,sy,tx,ty`
+    -- child := `l,t,r,b` or `l,t,r,b@sx,ky,kx,sy,tx,ty`, or `none` for a group with nothing in it
     let cs := allSome (children.map fun c =>
+      if c == "none" then some ({ box := ⟨Flt.ofNat 0, Flt.ofNat 0, Flt.ofNat 0, Flt.ofNat 0⟩, groupTs := none, hasBox := false } : ChildBox Float32) else
       match c.splitOn "@" with
       | [b] => (parseLtrb? b).map fun b => ({ box := b, groupTs := none } : ChildBox Float32)
       | [b, t] => match parseLtrb? b, parseTsCsv? t with
